@@ -267,6 +267,10 @@ impl std::error::Error for BuilderError {
     }
 }
 
+#[cfg(googlefonts_fontations_verif)]
+#[path = "/verif/harness/incrate/font_builder.rs"]
+mod verif_harness;
+
 #[cfg(test)]
 mod tests {
     use super::{RECOMMENDED_TABLE_ORDER_CFF, RECOMMENDED_TABLE_ORDER_TTF};
